@@ -16,6 +16,7 @@ mod cexec;
 mod exec;
 mod progs;
 mod c14;
+mod c14inst;
 mod c15;
 mod c16;
 mod c18;
@@ -111,6 +112,23 @@ fn main() {
             let t = pipe::set_src_deps(&mut db, "test", "use mylib::{twice, K, Pt};\nfn f(a: u8) -> u8 { let p = Pt { x: a, y: K }; twice(p.x) + p.y }\n", &["mylib"], None);
             println!("{:?}", pipe::diagnostics(&db, &t));
             println!("{}", pipe::sierra(&db, &t).map(|p| p.to_string().len().to_string()).unwrap_or_else(|e| e));
+        }
+        Some("debug-inst") => c14inst::debug(&args[1], args.get(2).map(|s| s.as_str()).unwrap_or("")),
+        Some("debug-inst-count") => { for a in [true,false] { let v = exec::inst_snippets(Tier::Quick, a); println!("audited={a}: {}", v.len()); } }
+        Some("dump-snip") => {
+            for s in exec::snippets(Tier::Thorough) {
+                if s.name == args[1] {
+                    println!("{}", s.code);
+                }
+            }
+        }
+        Some("debug-casm") => {
+            let code = std::fs::read_to_string(&args[1]).unwrap();
+            let mut dbs = exec::Dbs::default();
+            let cfg = if std::env::var("VERIF_CFG").as_deref() == Ok("disabled") { pipe::Cfg::BASELINE } else { pipe::Cfg::DEFAULT };
+            let prog = dbs.compile(&cfg, &code).unwrap();
+            if args.len() > 2 { println!("{prog}"); }
+            match pipe::make_runner(prog.clone(), &cfg) { Ok(_) => println!("casm ok"), Err(e) => println!("casm err {e}") }
         }
         Some("debug-compile") => {
             let code = std::fs::read_to_string(&args[1]).unwrap();
